@@ -9,6 +9,7 @@ package ristretto
 // quiescent end-state laws (C03, C13, C17).
 
 import (
+	"encoding/json"
 	"fmt"
 	"os"
 	"runtime"
@@ -403,6 +404,7 @@ func vfConcEndState[K Key](cache *Cache[K, uint64], c *vfConcCase, h *vfConcHist
 type vfConcStats struct {
 	hits, collHits, racedHits, staleChecks, drops, rejects, evicts, clears, overlaps3 int
 	exitedServed                                                                      int
+	exitByCallAcrossClear                                                             int
 	nearExpiry                                                                        int
 }
 
@@ -588,6 +590,23 @@ func vfConcOracles(c *vfConcCase, h *vfConcHist) (vs []*vfViol, st vfConcStats) 
 			}
 			for _, cr := range clearsR {
 				if sr.Res < cr.Inv && exitStamp[t] > cr.Res {
+					// A Del or an overwriting Set detaches the value under the shard lock and hands it to OnExit itself
+					// ("single transfer of ownership"). If such a call on the same key was in flight when OnExit ran,
+					// the value had left the cache's hands before or while Clear ran, and it is that call, not Clear,
+					// which delivers it: Clear cannot wait for calls in flight. (Seen once on the unchanged tree in
+					// some 10^5 cases - DESIGN.md 9.2.)
+					byCall := false
+					for i := range h.Recs {
+						r := &h.Recs[i]
+						if (r.Kind == "del" || r.Kind == "set") && r.Key == sr.Key && r.Inv < exitStamp[t] && exitStamp[t] < r.Res {
+							byCall = true
+							break
+						}
+					}
+					if byCall {
+						st.exitByCallAcrossClear++
+						break
+					}
 					add(vfV("C04", "not-released-by-clear", "value %d (key %d): Set returned true (stamp %d) before Clear was called (%d..%d) but OnExit came only at %d", t, sr.Key, sr.Res, cr.Inv, cr.Res, exitStamp[t]))
 					break
 				}
@@ -960,6 +979,7 @@ func vfConcNonTrivial(id string, st *vfConcStats) (bool, []string) {
 	clr := flag(st.clears > 0, "clear")
 	ov := flag(st.overlaps3 > 0, ">=3-call-types-overlapping-on-a-key")
 	ne := flag(st.nearExpiry > 0, "read-within-1ms-before-expiry")
+	flag(st.exitByCallAcrossClear > 0, "exit-delivered-by-a-del-or-set-in-flight-across-a-clear")
 	switch id {
 	case "C01":
 		return coll || raced, cl
@@ -986,6 +1006,10 @@ func vfConcProperty(ev *vfEvidence, profile string, maxG int) func(t *rapid.T) {
 		rapid.SyncTest(t, func(t *rapid.T) { h = vfConcRunTyped(c) })
 		vfConcCaseStart.Store(0)
 		vs, st := vfConcOracles(c, h)
+		if st.exitByCallAcrossClear > 0 && os.Getenv("VFDBG") != "" {
+			b, _ := json.Marshal(map[string]any{"case": c, "history": h})
+			fmt.Println("DBG-EXIT-ACROSS-CLEAR", string(b))
+		}
 		if v, d := vfPick(vs, profile); v != nil {
 			t.Fatalf("%s", vfFail(profile, "cacheconc", v.Sig, map[string]any{"case": c, "history": h}, "%s", v.Msg))
 		} else if d != "" {
